@@ -474,22 +474,41 @@ Proof.
   - destruct (memb p fs) eqn:E; [apply memb_In in E; contradiction | reflexivity].
 Qed.
 
-Lemma reserve_spec : forall token paths fs rr fs' rr' ok,
-  reserve fs token paths rr = (fs', rr', ok) ->
+Lemma reserve_spec : forall failsOther token paths fs rr fs' rr' st,
+  reserve failsOther fs token paths rr = (fs', rr', st) ->
   exists new, rr' = rr ++ new /\ fs' = rev new ++ fs /\ NoDup new /\ (forall x, In x new -> ~ In x fs)
-    /\ (ok = true -> new = map (fun p => attachmentReservationPath p token) paths).
+    /\ (st = 0 -> new = map (fun p => attachmentReservationPath p token) paths
+                  /\ Forall (fun p => failsOther (attachmentReservationPath p token) = false) paths)
+    /\ (st = 0 \/ st = 1 \/ st = 2)
+    /\ (st = 2 -> exists p, In p paths /\ failsOther (attachmentReservationPath p token) = true)
+    /\ (st = 1 -> exists p, In p paths /\ In (attachmentReservationPath p token) fs').
 Proof.
-  intros token paths. induction paths as [|p t IH]; intros fs rr fs' rr' ok H; simpl in H.
-  - inversion H; subst. exists []. rewrite app_nil_r. repeat split; try constructor. intros x [].
-  - destruct (memb (attachmentReservationPath p token) fs) eqn:Em.
-    + inversion H; subst. exists []. rewrite app_nil_r. repeat split; try constructor; try discriminate. intros x [].
-    + apply memb_false in Em. apply IH in H. destruct H as [new [Err [Efs [Hnd [Hnot Hok]]]]].
-      exists (attachmentReservationPath p token :: new). split; [|split; [|split; [|split]]].
-      * rewrite Err. rewrite <- app_assoc. reflexivity.
-      * rewrite Efs. simpl. rewrite <- app_assoc. reflexivity.
-      * constructor; [|exact Hnd]. intro Hin. apply (Hnot _ Hin). left. reflexivity.
-      * intros x [Ex|Hx]; [subst x; exact Em | intro Hf; apply (Hnot _ Hx); right; exact Hf].
-      * intro Hk. simpl. rewrite (Hok Hk). reflexivity.
+  intros failsOther token paths. induction paths as [|p t IH]; intros fs rr fs' rr' st H; simpl in H.
+  - inversion H; subst. exists []. rewrite app_nil_r.
+    split; [reflexivity|]. split; [reflexivity|]. split; [constructor|]. split; [intros x []|].
+    split; [intros _; split; [reflexivity | constructor]|]. split; [left; reflexivity|].
+    split; intro E; discriminate.
+  - destruct (failsOther (attachmentReservationPath p token)) eqn:Ef.
+    { inversion H; subst. exists []. rewrite app_nil_r.
+      split; [reflexivity|]. split; [reflexivity|]. split; [constructor|]. split; [intros x []|].
+      split; [intro E; discriminate|]. split; [right; right; reflexivity|].
+      split; [intros _; exists p; split; [left; reflexivity | exact Ef] | intro E; discriminate]. }
+    destruct (memb (attachmentReservationPath p token) fs) eqn:Em.
+    + inversion H; subst. exists []. rewrite app_nil_r. apply memb_In in Em.
+      split; [reflexivity|]. split; [reflexivity|]. split; [constructor|]. split; [intros x []|].
+      split; [intro E; discriminate|]. split; [right; left; reflexivity|].
+      split; [intro E; discriminate | intros _; exists p; split; [left; reflexivity | exact Em]].
+    + apply memb_false in Em. apply IH in H.
+      destruct H as [new [Err [Efs [Hnd [Hnot [Hok [Hst [H2 H1]]]]]]]].
+      exists (attachmentReservationPath p token :: new).
+      split; [rewrite Err; rewrite <- app_assoc; reflexivity|].
+      split; [rewrite Efs; simpl; rewrite <- app_assoc; reflexivity|].
+      split; [constructor; [intro Hin; apply (Hnot _ Hin); left; reflexivity | exact Hnd]|].
+      split; [intros x [Ex|Hx]; [subst x; exact Em | intro Hf; apply (Hnot _ Hx); right; exact Hf]|].
+      split; [intro Hk; destruct (Hok Hk) as [Hm Hfa]; split; [simpl; rewrite Hm; reflexivity | constructor; assumption]|].
+      split; [exact Hst|].
+      split; intro Hk; [destruct (H2 Hk) as [q [Hq Hfq]] | destruct (H1 Hk) as [q [Hq Hfq]]];
+        exists q; (split; [right; exact Hq | exact Hfq]).
 Qed.
 
 Lemma filter_none : forall {A} (g : A -> bool) l, (forall x, In x l -> g x = false) -> filter g l = [].
@@ -536,17 +555,23 @@ Proof.
   intro Hin. apply Hnin. apply in_map. exact Hin.
 Qed.
 
-Lemma collision_before_write : forall fs d names tok fs' written ok,
-  writeAttachments fs d names tok = (fs', written, ok) ->
-  (ok = false -> written = [] /\ fs' = fs) /\
-  (ok = true -> written = attachmentOutputPaths d names /\ NoDup written /\ Forall (insideDir d) written).
+Lemma collision_before_write : forall failsOther fs d names tok fs' written st,
+  writeAttachments failsOther fs d names tok = (fs', written, st) ->
+  (st <> 0 -> written = [] /\ fs' = fs) /\
+  (st = 0 -> written = attachmentOutputPaths d names /\ NoDup written /\ Forall (insideDir d) written
+             /\ Forall (fun p => failsOther (attachmentReservationPath p tok) = false) written) /\
+  (st = 0 \/ st = 1 \/ st = 2) /\
+  (st = 2 -> exists p, In p (attachmentOutputPaths d names) /\ failsOther (attachmentReservationPath p tok) = true).
 Proof.
-  intros fs d names tok fs' written ok H. unfold writeAttachments in H.
-  destruct (reserve fs tok (attachmentOutputPaths d names) []) as [[fs1 rr] ok1] eqn:Er.
-  apply reserve_spec in Er. destruct Er as [new [Err [Efs [Hnd [Hnot Hok]]]]]. simpl in Err. subst rr.
-  destruct ok1; inversion H; subst; split; intro Hk; try discriminate.
-  - split; [reflexivity|]. split.
-    + eapply NoDup_map_inv'. rewrite <- (Hok eq_refl). exact Hnd.
-    + apply outputPathsFrom_inside.
-  - split; [reflexivity|]. apply release_restores. exact Hnot.
+  intros failsOther fs d names tok fs' written st H. unfold writeAttachments in H.
+  destruct (reserve failsOther fs tok (attachmentOutputPaths d names) []) as [[fs1 rr] st1] eqn:Er.
+  apply reserve_spec in Er. destruct Er as [new [Err [Efs [Hnd [Hnot [Hok [Hst [H2 _]]]]]]]].
+  simpl in Err. subst rr.
+  destruct st1 as [|pp].
+  - inversion H; subst. destruct (Hok eq_refl) as [Hm Hfa].
+    split; [intro Hk; congruence|]. split; [|split; [left; reflexivity | intro E; discriminate]].
+    intros _. split; [reflexivity|]. split; [|split; [apply outputPathsFrom_inside | exact Hfa]].
+    eapply NoDup_map_inv'. rewrite <- Hm. exact Hnd.
+  - inversion H; subst. split; [|split; [intro E; discriminate | split; [exact Hst | exact H2]]].
+    intros _. split; [reflexivity | apply release_restores; exact Hnot].
 Qed.
